@@ -47,7 +47,14 @@ class Scripted(random.Random):
         return u
 
     def getrandbits(self, k):
-        raise RuntimeError("scripted generator: getrandbits requested")
+        # seed material for child generators (e.g. one privately seeded generator per simulation): deterministic per case,
+        # logged, and NOT part of the replayed random() stream -- roll-outs that run on such children cannot be mirrored
+        # draw by draw; they are judged on the recorded roll-outs themselves
+        if not hasattr(self, "_bits"):
+            import zlib
+            self._bits = random.Random(zlib.crc32(repr((self.name, self._u[:64])).encode()))
+        self.requests.append(["getrandbits", int(k), 0])
+        return self._bits.getrandbits(k)
 
     def _logged(self, name, n, fn):
         start = self._pos
